@@ -80,3 +80,9 @@ Proof. exact rounded_rect_box. Qed.
 Theorem C07_star_clockwise : forall (n : Z) (inner outer : R), (2 <= n)%Z -> (0 < inner)%R -> (0 < outer)%R ->
   area2 (star n inner outer) = (- (2 * IZR n * (inner * outer) * dsin (180 / IZR n)))%R /\ (area2 (star n inner outer) < 0)%R.
 Proof. intros n i o Hn Hi Ho. split; [apply star_area; lia|apply star_clockwise; assumption]. Qed.
+(* the centred rounded rectangle is the un-centred one moved by (-w/2, -h/2), inside [-w/2, w/2] x [-h/2, h/2] *)
+Theorem C07_rounded_rect_centred : forall (w h r : R) (segments : Z) pts, (0 < r)%R -> (2 * r <= w)%R -> (2 * r <= h)%R -> (1 <= segments)%Z ->
+  rounded_rect w h r segments true = Some pts ->
+  exists pts0, rounded_rect w h r segments false = Some pts0 /\ pts = map (fun p => pt2_add p (Pt2 (- w / 2) (- h / 2))%R) pts0 /\
+               Forall (in_box (- w / 2) (- h / 2) (w / 2) (h / 2))%R pts.
+Proof. exact rounded_rect_centred. Qed.
